@@ -514,6 +514,15 @@ def include_rule(c, chk, ex):
             bad = (p, 'does not pop the scanner source it pushed')
         elif fails is not False and not any(nm in unwinders for nm in called):
             bad = (p, 'returns after a failed parse without unwinding the include stack: files opened by include() stay open and every later include() nests deeper')
+    # the unwinder really unwinds: it returns only once the stack is back at the requested level
+    cond = unwinder_conditional(c, unwinders)
+    if cond and not bad:
+        fn_, p_ = cond
+        chk.fail('R7.6', 'unwinder-conditional:%s' % fn_.name, c.where(fn_),
+                 '%s() can return while the include stack is still above the requested level (it stops at a level whose file is not the current scanner source): '
+                 'after a failed parse include files stay open and the include depth is used up' % fn_.name, witness=['path condition: ' + ' && '.join(
+                     ('' if t else '!') + sym.render(cn) for cn, t, _ in p_.assume[-4:])])
+        return
     if bad:
         chk.fail('R7.6', 'bracket-no-unwind', c.where(f), 'cfg_parse_fp() ' + bad[1], witness=[repr(e) for e in bad[0].events])
     elif n:
@@ -552,3 +561,31 @@ def find_unwinders(c):
                 out.add(fn.name)
                 changed = True
     return out
+
+
+def unwinder_conditional(c, unwinders):
+    """(function, path) if an unwinding function can return without its loop condition 'stack pointer > level' having become false"""
+    lexex = sym.Explorer([c.lexer], max_visits=3, mod_sets=c.lex.mod_sets)
+    for name in sorted(unwinders):
+        f = c.lexer.funcs.get(name)
+        if f is None or f.name == 'cfg_yylex':
+            continue
+        direct = any(i.op == 'store' and i.ops[1].kind == 'global' and i.ops[1].name == '@cfg_include_stack_ptr'
+                     for h, body in _cfg.natural_loops(f).items() for b in body for i in f.blocks[b].instrs)
+        if not direct:
+            continue
+        for p in lexex.explore(f):
+            if p.end != 'ret':
+                continue
+            last = None
+            for cn, t, _ in p.assume:
+                if cn[0] == 'icmp' and sym.mentions(cn, lambda v: v[0] == 'ld' and v[1] == ('g', '@cfg_include_stack_ptr')) and \
+                        sym.mentions(cn, lambda v: v[0] == 'p'):
+                    above = {'sgt': t, 'sge': t, 'sle': not t, 'slt': not t}.get(cn[1])
+                    # operands may be swapped: level < ptr
+                    if cn[2][0] == 'p' or (cn[2][0] == 'bin' and sym.root_of(cn[2])[0] == 'p'):
+                        above = {'slt': t, 'sle': t, 'sge': not t, 'sgt': not t}.get(cn[1])
+                    last = above
+            if last is True:
+                return f, p
+    return None
